@@ -7,6 +7,7 @@ producing X from R:
      only in objects reachable from this call's arguments or from R's
      do_not_copy attribute values; untouched do_not_copy attributes must be the
      identical object in X;
+ (a0) a copy-on-write call that is not a documented no-op never returns R itself;
  (b) differential: k in-place mutations (assignment, deletion, _inplace helpers,
      direct mutation of nested containers / nested spec instances) are applied
      to X and the snapshot of R's non-do_not_copy state must not change, and
@@ -35,18 +36,23 @@ RULE = (
 ASSUMPTIONS = [
     "functions, classes, modules, bound methods and immutables are never counted as shared state",
     "sharing with the call's own arguments and through do_not_copy attributes is allowed; do_not_copy attributes are excluded from the differential comparison",
-    "classes declared do_not_copy=True as a whole and frozen classes are never the judged receiver; do_not_copy x subclassing is kept apart (DESIGN.md)",
+    "classes declared do_not_copy=True as a whole and frozen classes are never the judged receiver; an attribute inherited as do_not_copy and then left out of a subclass's explicit do_not_copy list is not judged either way",
 ]
 
 
 def GATES(tier):
-    return [("copies_judged", 300), ("identity_graphs_compared", 300), ("followup_mutations", 500), ("dnc_attrs_checked", 10), ("kind:deepcopy", 10), ("dnc_with_subclass_cases", 5)] + [
+    return [("copies_judged", 300), ("identity_graphs_compared", 300), ("followup_mutations", 500), ("dnc_attrs_checked", 10), ("kind:deepcopy", 10), ("dnc_with_subclass_cases", 5), ("dnc_inherited_attr_cases", 3)] + [
         (f"kind:{hk}", 5) for hk in dr.HELPER_KINDS
     ]
 
 
 def dnc_attrs(world, cname):
-    return [a for a in world.decl.attrs_of(cname) if world.decl.is_dnc_attr(cname, a)]
+    return [a for a in world.decl.attrs_of(cname) if world.decl.dnc_status(cname, a) is True]
+
+
+def dnc_unspecified(world, cname):
+    """Inherited as do_not_copy, then left out of a subclass's explicit do_not_copy list: either behaviour is accepted."""
+    return [a for a in world.decl.attrs_of(cname) if world.decl.dnc_status(cname, a) is None]
 
 
 def targeted_attrs(world, cname, op):
@@ -122,18 +128,16 @@ def run(ctx, params):
         mixed = rng.random() < 0.3
         decl = cg.gen_module(rng, {"frozen": False, "dnc_with_subclasses": mixed})
         world = cg.World(decl)
-        # do_not_copy x subclassing: what a subclass inherits is not documented, so only instances of the declaring
-        # (base) class are judged there - but the subclasses are bootstrapped and used alongside
-        base_only = len(decl.classes) > 1 and any(dnc_attrs(world, c.name) for c in decl.classes)
+        # do_not_copy x subclassing: a subclass that does not pass do_not_copy inherits the parent's settings, one that
+        # passes a list decides for the attributes it names (see classgen.dnc_status)
+        with_sub = len(decl.classes) > 1 and any(dnc_attrs(world, c.name) for c in decl.classes)
         try:
             history, insts = dr.build_history(world, rng, rng.randint(0, 6))
             for ji in range(params["copies_per_case"]):
                 case = [params.get("shard"), ci, ji]
-                receivers = [i for i, x in enumerate(insts) if dr.class_name(world, x) is not None and (not base_only or dr.class_name(world, x) == "M")]
+                receivers = [i for i, x in enumerate(insts) if dr.class_name(world, x) is not None]
                 if not receivers:
                     break
-                if base_only:
-                    ctx.count("dnc_with_subclass_cases")
                 target = rng.choice(receivers)
                 R = insts[target]
                 cname = dr.class_name(world, R)
@@ -144,12 +148,32 @@ def run(ctx, params):
                     op["kwargs"].pop("_if", None)
                 step = dr.execute(world, insts, op, scopes=(), saturate=True)
                 X = step.value
-                if step.outcome != "returned" or X is R or dr.class_name(world, X) is None:
+                if step.outcome == "returned" and X is R:
+                    # a copy-on-write call may hand back the receiver itself only where it is documented as a no-op
+                    # (C05: _if=False / MISSING / UNCHANGED - not generated here) or unspecified (element helper on a
+                    # missing container); anywhere else "the copy" shares everything with the receiver
+                    sanctioned = op["hkind"] in ("update_item", "transform_item", "without_item") and op.get("attr") not in R.__dict__
+                    ctx.count("receiver_returned_sanctioned" if sanctioned else "receiver_returned")
+                    if not sanctioned:
+                        t = cg.BY_NAME.get((op.get("attr") or "").split(",")[0], None)
+                        ctx.violation(
+                            "copy_is_the_receiver",
+                            f"{dr.op_src(op)} (no _inplace) returned the receiver itself: every later in-place change of the result is a change of the receiver",
+                            features={"hkind": op["hkind"], "form": op.get("form"), "attr_kind": t.kind if t else None, **dr.shape_features(world, cname)},
+                            case=case, history=dr.describe_history(history), source=world.source[-1500:],
+                        )
+                    continue
+                if step.outcome != "returned" or dr.class_name(world, X) is None:
                     ctx.count("calls_without_copy")
                     continue
                 ctx.count("copies_judged")
                 ctx.count(f"kind:{op['hkind']}")
                 dnc = dnc_attrs(world, cname)
+                unspec = dnc_unspecified(world, cname)
+                if with_sub and cname != "M":
+                    ctx.count("dnc_with_subclass_cases")
+                    if any(world.decl.attrs_of(cname)[a][0].name != cname for a in dnc):
+                        ctx.count("dnc_inherited_attr_cases")
                 t = cg.BY_NAME.get((op.get("attr") or "").split(",")[0], None)
                 feats = {"hkind": op["hkind"], "form": op.get("form"), "attr_kind": t.kind if t else None, "elem": t.elem if t else None, "dnc": bool(dnc)}
                 feats.update(dr.shape_features(world, cname))
@@ -157,7 +181,7 @@ def run(ctx, params):
                 allowed = {}
                 for a in list(step.args) + [v for v in step.kwargs.values()]:
                     allowed.update(mutable_nodes(a))
-                for n in dnc:
+                for n in dnc + unspec:
                     if n in R.__dict__:
                         allowed.update(mutable_nodes(R.__dict__[n]))
                 mr, mx = mutable_nodes(R), mutable_nodes(X)
@@ -186,7 +210,7 @@ def run(ctx, params):
                 pair = [R, X]
                 kinds = []
                 for victim, mutated in ((0, 1), (1, 0)):
-                    roots = state_roots(world, cname, pair[victim], set(dnc))
+                    roots = state_roots(world, cname, pair[victim], set(dnc) | set(unspec))
                     before = snap(roots)
                     applied = []
                     for _ in range(rng.randint(1, 4)):
